@@ -305,7 +305,7 @@ func (e *Exec) call(s *State, f *Frame, x *ssa.Call) ([]*State, bool) {
 		_, stubbed := e.stubs[name]
 		e.mu.Unlock()
 		if stubbed {
-			return e.havocCall(s, f, x, cl.Fn)
+			return e.havocCall(s, f, x, cl.Fn, args)
 		}
 	}
 	if strings.HasPrefix(name, "(github.com/cosmos/cosmos-sdk/x/params/types.Subspace).") {
@@ -617,7 +617,7 @@ func sameVal(a, b Val) bool {
 
 // havocCall: contract stub "any result of the right types" (amounts non-negative; an error result is nil or non-nil).
 // Declared by the harness with zzvp.Stub and listed in the evidence file.
-func (e *Exec) havocCall(s *State, f *Frame, x *ssa.Call, fn *ssa.Function) ([]*State, bool) {
+func (e *Exec) havocCall(s *State, f *Frame, x *ssa.Call, fn *ssa.Function, args []Val) ([]*State, bool) {
 	e.stats["stub-call:"+fn.String()]++
 	res := fn.Signature.Results()
 	vals := make(Tuple, res.Len())
@@ -632,6 +632,7 @@ func (e *Exec) havocCall(s *State, f *Frame, x *ssa.Call, fn *ssa.Function) ([]*
 		vals[i] = e.anyOf(s, t, "stub")
 	}
 	set := func(st *State, v Tuple) {
+		st.Spy = append(st.Spy, spyRec{Name: fn.String(), Args: args, Res: v})
 		if len(v) == 1 {
 			top(st).Regs[x] = v[0]
 		} else if len(v) > 1 {
